@@ -4,5 +4,8 @@ Require Import ExtrOcamlBasic.
 From CB Require Import Trie.Radix.
 From CB Require Import Trie.PrefixMap.
 From CB Require Import Trie.Locks.
+From CB Require Import Trie.Nibbles.
 Extraction "trie_model.ml" m_step m_init s_step s_init m_wf
-  pm_insert pm_delete pm_no_prefix pm_iohp pm_dump pm_wf pm_set pm_count.
+  pm_insert pm_delete pm_no_prefix pm_iohp pm_dump pm_wf pm_set pm_count
+  ms_push ms_truncate ms_extend prepend_parts st_len it_next to_stem consumed_to_stem last_to_stem
+  follow_iter iter_new stem_iter.
